@@ -78,6 +78,10 @@ def spec_env(I, st, extra):
     if fr.spec_env:
         for k, v in fr.spec_env.items():
             env.setdefault(k, v)
+    # inside the body of a loop over a list the index of the current element is visible to site assertions as IDX
+    li = getattr(fr, "loop_idx", None)
+    if li is not None:
+        env.setdefault("IDX", li)
     env.update(extra)
     return env
 
@@ -337,12 +341,16 @@ def exec_for(I, st, node):
             if kind == "enumerate":
                 ev = Val(("Tuple", ("Int", ev.ty)), (mkint(idx + (start.term if start is not None else 0)), ev))
             I.assign(st, node.target, ev)
+            saved_idx = getattr(st.frame, "loop_idx", None)
+            st.frame.loop_idx = mkint(idx)
             try:
                 I.exec_block(st, node.body)
             except ContinueExc:
                 pass
             except BreakExc:
                 return
+            finally:
+                st.frame.loop_idx = saved_idx
             check_inv(I, st, ls, k, mk_env({"IDX": mkint(idx + 1)}), "preserved")
             raise PathEnd("loop iteration done")
         else:
